@@ -33,6 +33,11 @@ func runC15(c *an.Ctx) {
 	r15j(c)
 	r15k(c)
 	r15l(c)
+	// round 8
+	r15m(c)
+	r15n(c)
+	r15o(c)
+	c.As(map[string]string{"R14c": "R15p"}, func() { r14c(c) })
 }
 
 var c15Funcs = []struct{ pkg, name, role string }{
@@ -125,6 +130,11 @@ func r15b(c *an.Ctx) {
 					ok = false
 				}
 			}
+			if !ok {
+				// the error may travel out of an extracted helper before it is tested: decide by flow - with the error
+				// non-nil neither the rebuilding of Roles nor the next child is reachable
+				ok = errorEndsBefore(call, ev, stores, true)
+			}
 			c.Ob(key, call.Pos(), ok, "in the sequential branch a child error must return immediately, before the next child and before Roles is rebuilt (%d tests of the error found)", len(tests))
 		}
 		if n == 0 {
@@ -147,9 +157,32 @@ func r15b(c *an.Ctx) {
 				ok = false
 			}
 		}
+		if !ok && an.Dominates(waits[0], eon[0]) {
+			ok = errorEndsBefore(ev, ev, stores, false)
+		}
 		// the accumulator read by ErrorOrNil is the one the goroutines append to
 		c.Ob(key, eon[0].Pos(), ok, "after the join the accumulated error must be tested and returned before Roles is rebuilt (%d tests)", len(tests))
 	}
+}
+
+// errorEndsBefore: in a flow started at the call with its error known non-nil, no block that rebuilds the role list is
+// reached and (loop) the enclosing loop does not come round to its header again.
+func errorEndsBefore(call *ssa.Call, ev ssa.Value, stores []ssa.Instruction, loop bool) bool {
+	fl := an.FlowFromFacts(call.Block(), nil, ev)
+	for _, st := range stores {
+		if st.Block() != call.Block() && fl.Reached[st.Block()] {
+			return false
+		}
+		if st.Block() == call.Block() {
+			return false
+		}
+	}
+	if loop {
+		if h, _ := an.EnclosingLoop(call.Block()); h != nil && h != call.Block() && fl.Reached[h] {
+			return false
+		}
+	}
+	return len(fl.ReachedReturns()) > 0
 }
 
 func r15c(c *an.Ctx) {
